@@ -564,6 +564,15 @@ def replay_case(case, variant):
                     import inspect
                     res = car.case_runner(ns["wrapped"], tuple(inspect.signature(ns["wrapped"]).parameters)[:len(names)] and None, tcases,
                                           combos=combos, constants={**conc.resources, **consts}, split=split, **opts)
+                elif entry == "case_runner" and cfg["nca"] >= 2 and kind == "flat" and variant.get("sig_perm") and not cfg["overlap"]:
+                    # explicit fn_args in another order than the function's own signature: tuple cases follow fn_args
+                    names = list(conc.case_names)
+                    src = "def wrapped(%s, **rest):\n    return target(%s, **rest)\n" % (
+                        ", ".join(reversed(names)), ", ".join("%s=%s" % (n_, n_) for n_ in names))
+                    ns = {"target": fn}
+                    exec(src, ns)
+                    res = car.case_runner(ns["wrapped"], tuple(names), conc.cases(as_dict=False),
+                                          combos=combos, constants={**conc.resources, **consts}, split=split, **opts)
                 elif entry == "case_runner" and cfg["nca"] and kind == "flat":
                     res = car.case_runner(fn, conc.case_names[0] if (len(conc.case_names) == 1 and variant.get("bare_cases")) else conc.case_names, cases_t,
                                           combos=combos, constants={**conc.resources, **consts}, split=split, **opts)
@@ -581,6 +590,14 @@ def replay_case(case, variant):
                     if not cfg["meta"]["cdim"]:
                         var_coords = {"t": T_VALUES}
                 dfn = _ds_fn(log, mode, first_index=lambda i: (case["settings"][i - 1][0] if 1 <= i <= len(case["settings"]) and case["settings"][i - 1] else 1))
+                if variant.get("sig_perm") and cfg["nca"] >= 2 and not cfg["overlap"]:
+                    # the function's own signature lists the arguments in another order than the fn_args handed over
+                    names_ = list(conc.fn_args)
+                    src_ = "def wrapped(%s, **rest):\n    return target(%s, **rest)\n" % (
+                        ", ".join(reversed(names_)), ", ".join("%s=%s" % (n_, n_) for n_ in names_))
+                    ns_ = {"target": dfn}
+                    exec(src_, ns_)
+                    dfn = ns_["wrapped"]
                 kwargs = dict(var_dims=var_dims, var_coords=var_coords, constants=consts or None,
                               resources=conc.resources or None, attrs=conc.attrs or None)
                 def decoy(r):
@@ -829,7 +846,7 @@ def variants_for(case, idx, prop, n_variants):
                  exec=EXEC_STYLES[(k + j) % 3], seed=[True, 3, 11][(k + j) % 3],
                  cases_as_dict=(k % 2 == 0), noshuffle=[False, 0][(k // 3) % 2], case_key_order=(k % 3 == 1),
                  dupkind=k % 3, decoy=(k % 2 == 1), bare_cases=(k % 4 < 2), infer_fn_args=(k % 5 < 2),
-                 grid_order=[None, "desc", None, "rot"][(k + j) % 4])
+                 grid_order=[None, "desc", None, "rot"][(k + j) % 4], sig_perm=(k % 2 == 1))
         # numbers next to strings: positional outputs only (a Dataset coordinate would turn them all into strings); the
         # union of such case values has no defined order, so a nested case output is then compared as a multiset
         ok_hs = (not cfg.get("dup")) and cfg["kind"] in ("nested", "flat")
